@@ -285,6 +285,9 @@ func (tr *FnTrans) safety(kind, what string, st *BState, cond string, pos token.
 	}
 	if !(tr.c != nil && tr.c.MayPanic) {
 		tr.oblige("safety:"+kind, what, st.reach, cond, pos)
+	} else {
+		// declared `may panic`: the no-panic conditions of this function are assumed, not proved
+		tr.usedSpecs["no-panic conditions of "+tr.name+" assumed, not proved (contract says `may panic`): the clauses of its contract hold for executions that do not panic"] = true
 	}
 	tr.assume(st.reach, cond, "after safety:"+kind)
 }
